@@ -5,12 +5,44 @@ use std::{
     str::FromStr,
 };
 
-use proc_macro2::Span;
+use proc_macro2::{Delimiter, Group, Span, TokenStream, TokenTree};
 use quote::ToTokens;
 use syn::{spanned::Spanned, Path, Type};
 
 #[derive(Debug, Clone)]
 pub(crate) struct HashType(String, Span);
+
+/// The tokens of a type, ready to be printed and read again: an invisible group (the form in which a `$t:ty` fragment of a `macro_rules!` macro arrives) disappears in print, so one whose content is more than a single bound (`dyn A + B`) gets the parentheses it needs there.
+fn printable(token_stream: TokenStream) -> TokenStream {
+    token_stream
+        .into_iter()
+        .flat_map(|token| match token {
+            TokenTree::Group(group) => {
+                let stream = printable(group.stream());
+
+                match group.delimiter() {
+                    Delimiter::None => {
+                        let needs_parentheses = stream
+                            .clone()
+                            .into_iter()
+                            .any(|token| matches!(token, TokenTree::Punct(punct) if punct.as_char() == '+'));
+
+                        if needs_parentheses {
+                            TokenStream::from(TokenTree::Group(Group::new(
+                                Delimiter::Parenthesis,
+                                stream,
+                            )))
+                        } else {
+                            stream
+                        }
+                    },
+                    delimiter => TokenStream::from(TokenTree::Group(Group::new(delimiter, stream))),
+                }
+            },
+            token => TokenStream::from(token),
+        })
+        .collect()
+}
 
 impl PartialEq for HashType {
     #[inline]
@@ -59,7 +91,7 @@ impl From<Type> for HashType {
 impl From<&Type> for HashType {
     #[inline]
     fn from(value: &Type) -> Self {
-        Self(value.into_token_stream().to_string(), value.span())
+        Self(printable(value.into_token_stream()).to_string(), value.span())
     }
 }
 
